@@ -1,12 +1,12 @@
-(* Css/VarSubstProofs.v -- var() resolution (Css/VarSubst.v): the function of
+(* Css/C08VarSubstProofs.v -- var() resolution (Css/VarSubst.v): the function of
    the pinned tree diverges on cycles; the repaired one is total (fuel =
    a stated function of the input, no panic site reachable), computes the
-   token substitution of Css/DeclSpec.v, never reports a cycle in an acyclic
+   token substitution of Css/C08Spec.v, never reports a cycle in an acyclic
    environment, and a reported cycle / an ill-typed result falls back to the
    inherited or initial value. *)
 From Coq Require Import List NArith ZArith QArith Bool Lia Arith.
 From Coq Require String.
-From Verif Require Import Base.GoSem Css.DeclTok Css.Decl Css.VarSubst Css.DeclSpec Css.DeclProofs.
+From Verif Require Import Base.GoSem Css.DeclTok Css.Decl Css.VarSubst Css.C08Spec Css.C08DeclProofs.
 Import ListNotations.
 Open Scope nat_scope.
 
